@@ -66,6 +66,11 @@ fn group_of(price: u128, a_to_b: bool, size: i32, approaching: bool) -> i32 {
 impl Monitor for C14 {
     fn after(&mut self, w: &mut World, obs: &Obs, acc: &mut Acc) {
         let name = obs.ix.name;
+        // ---------- what the set-up of this world found: tiers, pools and oracles that do not hold what was asked for ----------
+        acc.add("adaptive_setups_compared_with_the_request", std::mem::take(&mut w.setup_compared));
+        for (sig, detail) in std::mem::take(&mut w.setup_findings) {
+            acc.violation(sig, detail, json!({"stage": "set-up of the scenario (World::add_adaptive_pool)"}));
+        }
         // ---------- the trade-enable time of a pool is fixed when its oracle is created: whatever later touches the
         //            oracle (constants updates, swaps) must leave it, and the pool it belongs to, alone ----------
         if obs.ok() {
